@@ -74,6 +74,9 @@ type op struct {
 	N        int      `json:"n,omitempty"`
 	Compress bool     `json:"compress,omitempty"` // reopen: options of the new session
 	Cache    int      `json:"cache,omitempty"`
+	// reopen after a simulated process death: what lies on disk between Close and the restart is changed
+	Tail int `json:"tail,omitempty"` // bytes appended to the current data file without an index record
+	Cut  int `json:"cut,omitempty"`  // bytes cut off the end of blockchain.new (k*136+j: k records + a torn one)
 }
 
 type caseC16 struct {
@@ -96,6 +99,7 @@ type mblk struct {
 	fpos    int64
 	stored  int64 // length on disk (after compression)
 	gone    bool  // its data file fell out of the configured retention (DataFilesKeep, no backup)
+	lost    bool  // its index record was cut away by a simulated crash: the block is not stored any more
 }
 
 type summary struct {
@@ -107,6 +111,8 @@ type summary struct {
 	invalidOnDisk, appendAfterInvalidReopen  bool
 	invalidReopened, byteFlush               bool
 	idxRegress, idxRegressArchived           bool
+	unindexedTail, appendAfterTail           bool
+	cutRecords                               int
 }
 
 type runner struct {
@@ -124,6 +130,8 @@ type runner struct {
 	dirtySeq bool // a flag update or roll-over happened since the start (for the non-trivial rule)
 	step     int
 	archived map[uint32]bool // data files that left the main directory (removed or moved to oldat/)
+	// a restart found the current data file longer than the indexed extent (appends must overwrite that tail)
+	tailPending bool
 }
 
 func (r *runner) storedLen(b *mblk) int64 {
@@ -240,6 +248,9 @@ func (r *runner) open() error {
 		if b.invalid {
 			return fmt.Errorf("after reopen the index lists block #%d which was marked invalid", r.serial(b))
 		}
+		if b.lost {
+			return fmt.Errorf("after reopen the index lists block #%d although its index record was cut away", r.serial(b))
+		}
 		if !b.written {
 			return fmt.Errorf("after reopen the index lists block #%d which the model never saw written", r.serial(b))
 		}
@@ -273,7 +284,7 @@ func (r *runner) serial(b *mblk) int {
 func (r *runner) live(pred func(*mblk) bool) []*mblk {
 	var l []*mblk
 	for _, b := range r.blocks {
-		if !b.invalid && (pred == nil || pred(b)) {
+		if !b.invalid && !b.lost && (pred == nil || pred(b)) {
 			l = append(l, b)
 		}
 	}
@@ -351,7 +362,7 @@ func (r *runner) checkLength(b *mblk, decode bool) error {
 func (r *runner) sweep() error {
 	r.sum.sweepCnt++
 	for _, b := range r.blocks {
-		if b.invalid {
+		if b.invalid || b.lost {
 			continue
 		}
 		if err := r.checkGet(b, false); err != nil {
@@ -381,6 +392,9 @@ func (r *runner) add(s *blkSpec, trusted bool) {
 	r.queue = append(r.queue, b)
 	r.datToWr += uint64(len(raw))
 	r.sum.adds++
+	if r.tailPending {
+		r.sum.appendAfterTail = true
+	}
 	if r.sum.invalidReopened {
 		r.sum.appendAfterInvalidReopen = true
 	}
@@ -504,12 +518,33 @@ func (r *runner) do(o op) error {
 		r.db.Idle()
 		r.mFlush()
 	case "reopen":
-		return r.reopen(o.Compress, o.Cache)
+		return r.reopenFault(o.Compress, o.Cache, o.Tail, o.Cut, uint64(r.step))
 	}
 	return nil
 }
 
 func (r *runner) reopen(compress bool, cache int) error {
+	return r.reopenFault(compress, cache, 0, 0, 0)
+}
+
+// datName mirrors BlockDB.dat_fname for the main directory.
+func (r *runner) datName(idx uint32) string {
+	fn := r.dir + "blockchain.dat"
+	if idx != 0 {
+		fn = r.dir + fmt.Sprintf("blockchain-%08x.dat", idx)
+	}
+	if _, er := os.Stat(fn); er != nil {
+		fn = r.dir + fmt.Sprintf("bl%08d.dat", idx)
+	}
+	return fn
+}
+
+// reopenFault: Close, then (optionally) leave the files the way a process death inside writeOne leaves them -
+// the index file loses its last records (cut = k*136+j bytes: k whole records and a torn one, their data stays
+// in the data file) and/or the current data file gets tail bytes that no index record speaks about (data written,
+// index record not) - then restart.  Blocks whose index record is cut away are not stored any more; everything
+// else must read back as before and appending must go on at the indexed extent, over the unindexed bytes.
+func (r *runner) reopenFault(compress bool, cache, tail, cut int, salt uint64) error {
 	r.db.Close()
 	r.mFlush()
 	r.db = nil
@@ -517,7 +552,70 @@ func (r *runner) reopen(compress bool, cache int) error {
 		cache = 1
 	}
 	r.cfg.Compress, r.cfg.Cache = compress, cache
+	unindexed := false
+	if n := len(r.records); cut > 0 && n > 0 {
+		full, j := cut/136, cut%136
+		m := full
+		if j > 0 {
+			m++
+		}
+		want := m
+		if m > n {
+			m = n
+		}
+		// never go back by more than one data file, and never into a data file that has already left the main
+		// directory (DataFilesKeep): a crash does not lose the index records of whole retired data files
+		lastFile := r.records[n-1].file
+		for m > 0 {
+			var f uint32
+			if n-m > 0 {
+				f = r.records[n-m-1].file
+			}
+			if f+1 >= lastFile && !r.archived[f] {
+				break
+			}
+			m--
+		}
+		if m > 0 {
+			bytes := int64(m) * 136
+			if j > 0 && m == want {
+				bytes = int64(full)*136 + int64(j)
+			}
+			// (the file may be longer than n records: the rest of a record torn by an earlier cut)
+			fi, err := os.Stat(r.dir + "blockchain.new")
+			if err != nil || fi.Size() < int64(n)*136 {
+				return fmt.Errorf("blockchain.new is shorter than the %d records written so far", n)
+			}
+			if err := os.Truncate(r.dir+"blockchain.new", int64(n)*136-bytes); err != nil {
+				return fmt.Errorf("harness: %v", err)
+			}
+			for _, b := range r.records[n-m:] {
+				b.lost = true
+			}
+			r.records = r.records[:n-m]
+			r.sum.cutRecords += m
+			unindexed = true
+		}
+	}
 	r.mReopen()
+	if tail > 0 {
+		f, err := os.OpenFile(r.datName(r.curIdx), os.O_WRONLY|os.O_CREATE|os.O_APPEND, 0o660)
+		if err != nil {
+			return fmt.Errorf("harness: %v", err)
+		}
+		junk := make([]byte, tail)
+		(&prng{s: salt*0x9e3779b97f4a7c15 + uint64(tail)}).fill(junk)
+		f.Write(junk)
+		f.Close()
+		unindexed = true
+	}
+	if unindexed {
+		// is the current data file really longer than the indexed extent?
+		if fi, err := os.Stat(r.datName(r.curIdx)); err == nil && fi.Size() > r.curPos {
+			r.sum.unindexedTail = true
+			r.tailPending = true
+		}
+	}
 	r.sum.reopens++
 	if r.sum.invalidOnDisk {
 		r.sum.invalidReopened = true
@@ -667,6 +765,18 @@ func genOp(t *rapid.T, thorough bool) op {
 	case "reopen":
 		o.Compress = rapid.Bool().Draw(t, "compress")
 		o.Cache = rapid.IntRange(1, 8).Draw(t, "cache")
+		switch uni(t, "fault", 10) {
+		case 0, 1, 2: // data written, index record not / garbage at the end of the data file
+			o.Tail = rapid.IntRange(1, 5000).Draw(t, "tail")
+			if uni(t, "bigtail", 8) == 0 {
+				o.Tail = rapid.IntRange(5000, 200000).Draw(t, "tail")
+			}
+		case 3, 4: // the last index records are missing / torn, their data is still there
+			o.Cut = uni(t, "cutrecs", 4)*136 + uni(t, "cutbytes", 136)
+		case 5: // both
+			o.Tail = rapid.IntRange(1, 5000).Draw(t, "tail")
+			o.Cut = uni(t, "cutrecs", 3)*136 + uni(t, "cutbytes", 136)
+		}
 	case "idle":
 	default:
 		o.I = rapid.IntRange(0, 1<<20).Draw(t, "i")
@@ -738,6 +848,15 @@ func TestBlockDBModel(t *testing.T) {
 		}
 		if sum.idxRegressArchived {
 			r.Class("restart_with_invalid_tail_over_retired_file")
+		}
+		if sum.unindexedTail {
+			r.Class("reopen_with_unindexed_data_tail")
+		}
+		if sum.appendAfterTail {
+			r.Class("append_after_unindexed_data_tail")
+		}
+		if sum.cutRecords > 0 {
+			r.Class("index_records_cut")
 		}
 		if sum.byteFlush {
 			r.Class("flush_by_16MiB")
